@@ -131,7 +131,7 @@ def shrink(case, check, key, candidates, max_evals=400, max_seconds=60):
     curv = None
     improved = True
     t_end = time.time() + max_seconds
-    if key.startswith('hang:') or key.startswith('memory:'):
+    if key.startswith('hang:') or key.startswith('memory:') or 'MemoryError' in key:
         return cur, curv, evals
     while improved and evals < max_evals and time.time() < t_end:
         improved = False
@@ -151,6 +151,8 @@ def shrink(case, check, key, candidates, max_evals=400, max_seconds=60):
                 cur, curv = c, v
                 improved = True
                 break
+            if v.status == 'fail' and v.key and (v.key.startswith('hang:') or v.key.startswith('memory:')):
+                return cur, curv, evals       # candidates of this case cost the full time limit: stop shrinking
     return cur, curv, evals
 
 
@@ -170,7 +172,10 @@ def run_shard(args):
 # milliseconds, the slowest legitimate ones a few seconds
 CASE_TIME_LIMIT = int(os.environ.get('VLIB_CASE_LIMIT', '40'))
 CASE_WALL_LIMIT = 900         # seconds of wall-clock time: beyond it a case is inconclusive (discarded), not a failure
-WORKER_MEMORY_LIMIT = 4 << 30  # bytes of address space per worker process
+# bytes of address space per worker process: 16 workers must fit into the machine together (a broken tree that allocates
+# up to the limit in every worker otherwise stalls the whole run without using CPU time)
+WORKER_MEMORY_LIMIT = 2 << 30
+CUSTOM_LANE_MEMORY_LIMIT = 4 << 30
 
 
 class CaseTimeout(BaseException):
@@ -228,7 +233,8 @@ def _run_shard(modname, lane_name, tier, seed, shard, n_examples, known_keys):
     if multiprocessing.current_process().name != 'MainProcess':
         try:
             import resource
-            resource.setrlimit(resource.RLIMIT_AS, (WORKER_MEMORY_LIMIT, WORKER_MEMORY_LIMIT))
+            lim = WORKER_MEMORY_LIMIT if lane.custom is None else CUSTOM_LANE_MEMORY_LIMIT
+            resource.setrlimit(resource.RLIMIT_AS, (lim, resource.getrlimit(resource.RLIMIT_AS)[1]))
         except Exception:
             pass
     if lane.check is not None:
@@ -243,6 +249,7 @@ def _run_shard(modname, lane_name, tier, seed, shard, n_examples, known_keys):
     failures = []
     stop_dir = os.environ.get('VLIB_STOP_DIR')
     stop_flag = os.path.join(stop_dir, 'stop-' + lane_name) if stop_dir else None
+    stop_all = os.path.join(stop_dir, 'stop-ALL') if stop_dir else None
     remaining = n_examples
     rnd = 0
     while remaining > 0 and len(failures) < MAX_BUCKETS:
@@ -256,7 +263,7 @@ def _run_shard(modname, lane_name, tier, seed, shard, n_examples, known_keys):
         def test(case):
             if state['fail'] is not None:
                 raise _Fail()
-            if stop_flag and os.path.exists(stop_flag):
+            if stop_flag and (os.path.exists(stop_flag) or os.path.exists(stop_all)):
                 state['stopped'] = True
                 raise _Fail()
             v = lane.check(case)
@@ -264,6 +271,9 @@ def _run_shard(modname, lane_name, tier, seed, shard, n_examples, known_keys):
                 # every further such case costs the full time limit: the other shards of this lane stop too
                 try:
                     open(stop_flag, 'w').close()
+                    # hangs in three lanes: the tree is broken in a way that makes every further lane cost minutes
+                    if len([x for x in os.listdir(stop_dir) if x.startswith('stop-')]) >= 3:
+                        open(stop_all, 'w').close()
                 except OSError:
                     pass
             state['count'] += 1
@@ -288,7 +298,7 @@ def _run_shard(modname, lane_name, tier, seed, shard, n_examples, known_keys):
         if lane.candidates is not None:
             c2, v2, evals = shrink(case, lane.check, v.key, lane.candidates,
                                    max_evals=300 if tier == 'quick' else 2000,
-                                   max_seconds=45 if tier == 'quick' else 300)
+                                   max_seconds=20 if tier == 'quick' else 300)
             if v2 is not None:
                 case, v = c2, v2
         failures.append({'lane': lane_name, 'key': v.key, 'detail': v.detail, 'case': jsonable(case),
